@@ -3,7 +3,8 @@
      v2/pkg/engine/postprocess/collect_authorization_coordinates.go   collect_coordinates
      v2/pkg/engine/resolve/field_authorization.go                     seed (authorizePreFetch), decide, deny_reason
      v2/pkg/engine/resolve/resolvable.go                              consulted (authorizeField), field_coordinate
-     v2/pkg/engine/resolve/loader.go                                  fetch_optype, is_fetch_authorized_from_cache
+     v2/pkg/engine/resolve/loader.go                                  fetch_optype, is_fetch_authorized_from_cache,
+                                                                      rate_limit_fetch, validate_pre_fetch
    No proofs here.
 
    The plan tree is the response tree of C02 reduced to what authorization reads: each field's
@@ -203,6 +204,34 @@ Definition is_fetch_authorized_from_cache (has_authorization : bool) (optype : N
    only the fallback for a fetch without one *)
 Definition is_fetch_authorized (has_authorization : bool) (loader_op : N) (ft : fetchinfo) (k : cache) : bool :=
   is_fetch_authorized_from_cache has_authorization (fetch_optype (ft_op ft) loader_op) (ft_ds ft) (ft_roots ft) k.
+
+(* rateLimitFetch.  [enabled] = l.ctx.RateLimitOptions.Enable; [limiter] = l.ctx.rateLimiter (None = nil) as its answer
+   for a fetch: RlPass = (nil, nil), RlReject = a *RateLimitDeny, RlError = an error *)
+Inductive rl_answer := RlPass | RlReject | RlError.
+Definition rate_limit_fetch (enabled : bool) (limiter : option (fetchinfo -> rl_answer)) (ft : fetchinfo) : bool :=
+  if negb enabled then true
+  else match limiter with
+       | None => true
+       | Some lim => match lim ft with RlPass => true | _ => false end
+       end.
+(* validatePreFetch, the one place where the loader's pre-fetch hooks are chained for single, entity and batch entity
+   fetches (pre-fetch authorization mode): a fetch without FetchInfo is not validated; the gate's "no" is final -- the
+   limiter is consulted only for a fetch the gate lets through *)
+Definition validate_pre_fetch (has_authorization : bool) (loader_op : N) (info : option fetchinfo) (k : cache)
+           (enabled : bool) (limiter : option (fetchinfo -> rl_answer)) : bool :=
+  match info with
+  | None => true
+  | Some ft =>
+    if negb (is_fetch_authorized has_authorization loader_op ft k) then false
+    else rate_limit_fetch enabled limiter ft
+  end.
+(* is the limiter consulted (does the fetch consume rate limit budget)? *)
+Definition limiter_consulted (has_authorization : bool) (loader_op : N) (info : option fetchinfo) (k : cache)
+           (enabled : bool) (limiter : option (fetchinfo -> rl_answer)) : bool :=
+  match info, limiter with
+  | Some ft, Some _ => is_fetch_authorized has_authorization loader_op ft k && enabled
+  | _, _ => false
+  end.
 
 (* ---- embedding of the C02 plan tree ---- *)
 Definition finfo_of (srcs : authinfo -> list bytes) (a : authinfo) : finfo :=
